@@ -114,8 +114,25 @@ func GenFS(r *core.Rand, dir string, cfg *FSCfg) *FSLayout {
 			remote = lp
 		}
 		used := false
+		// a directory of which one referenced file is absent locally and its sibling exists; now and then these two
+		// are the only frames under this root, and the absent one sorts first or last
+		pairOnly := false
+		if cfg.MissingSome && r.Chance(1, 3) {
+			d := fmt.Sprintf("gp%dpkg/github.com/pair/p%d/", i, r.Intn(3))
+			gone, there := "alpha.go", "worker.go"
+			if r.Bool() {
+				gone, there = "zulu.go", "mid.go"
+			}
+			writeFile(lp+"/src/"+d+there, src(d+there))
+			for _, n := range []string{gone, there} {
+				f := d + n
+				addFrame(FSFrame{Remote: remote + "/src/" + f, Local: lp + "/src/" + f, Rel: f, Import: filepath.Dir(f), Class: FSGOPATH, Exists: n == there, Pkg: filepath.Dir(f), Explains: remote})
+			}
+			used = true
+			pairOnly = r.Bool()
+		}
 		// src tree
-		if r.Chance(3, 4) {
+		if !pairOnly && r.Chance(3, 4) {
 			n := 1 + r.Intn(3)
 			for k := 0; k < n; k++ {
 				f := fmt.Sprintf("gp%dpkg/", i) + r.Pick(gpPkgs)
@@ -128,7 +145,7 @@ func GenFS(r *core.Rand, dir string, cfg *FSCfg) *FSLayout {
 			}
 		}
 		// module cache
-		if r.Chance(2, 3) {
+		if !pairOnly && r.Chance(2, 3) {
 			n := 1 + r.Intn(3)
 			for k := 0; k < n; k++ {
 				f := fmt.Sprintf("gp%dmod/", i) + r.Pick(modPkgs)
